@@ -380,16 +380,18 @@ def _do_job(job):
     U = Fraction(conc["U"])
     results = []
     for run in job["runs"]:
+        if not any(x["cls"] == "in" for x in h[:run["k"]]):
+            continue  # rp2 takes no input without an acquisition (that rejection belongs to C12)
         al = Alpha(conc["U"], conc["P"], Q)
         status, acct, msg, cd, idmap = run_once(job, run)
         obs = observe(cd, idmap, al) if cd is not None else dict(_EMPTY)
         results.append((run, status, acct, msg, obs, al))
-    # reference run: the largest successful prefix run without window and with the configured -n
+    # reference run: the largest successful prefix run without window (fractions do not depend on -n)
     m = 0
     ref = None
     for r in results:
         run, status = r[0], r[1]
-        if status == "ok" and run["from"] <= common.MIN_DAY and run["to"] >= common.MAX_DAY and bool(run["neg"]) == bool(c["neg"]) and run["k"] > m:
+        if status == "ok" and run["from"] <= common.MIN_DAY and run["to"] >= common.MAX_DAY and run["k"] > m:
             m, ref = run["k"], r
     lines = []
     overflow = False
@@ -407,4 +409,4 @@ def _do_job(job):
     # tolerated overdraft in lattice units: the run must be rejected when a balance is below -1e-10
     band = int(Fraction(1, 10**10) / U)
     tc = {"Q": Q, "sched": c["sched"], "country": c["country"], "ltcg": c.get("ltcg", 0), "band": band}
-    return {"c": tc, "h": h, "m": m, "lines": lines, "meta": {"conc": conc, "runs": job["runs"], "msgs": msgs, "overflow": overflow, "neg": c["neg"], "tag": job.get("tag", "")}}
+    return {"c": tc, "h": h, "m": m, "lines": lines, "meta": {"conc": conc, "runs": [r[0] for r in results], "msgs": msgs, "overflow": overflow, "neg": c["neg"], "tag": job.get("tag", "")}}
